@@ -12,6 +12,7 @@ coordinates in [0,1]; moving both patterns jointly does not change the result (m
 import numpy as np
 from scipy.spatial.transform import Rotation as R
 from mc.checks.replacelib import *
+from mc.ref.geom import subset_rmsd_bound
 
 ENGINE = 'E1+E2'
 PATS = ['Zr', 'CN', 'CC', 'OCO', 'HCN', 'CNO', 'BF3', 'CH4', 'CHHB']
@@ -44,6 +45,13 @@ def plan(tier, seed):
         for pn in (['CN', 'CNO', 'CHHB'] if q else PATS[1:]):
             for nc, f in ((3, 0.5), (3, 1.0 / 3), (4, 0.5)) if not q else ((3, 0.5), (3, 1.0 / 3)):
                 scs.append(dict(cell=ci, pat=pn, subpose=4, ncopies=nc, place=0, pair=[p[0] for p in pairs(pn)].index('grown (shared core + 2 atoms)'), replace_all=0, atol=0.05, fraction=f, noise=0))
+    for ci in (0, 2, 6):
+        for pn in ['CN', 'CNO', 'CHHB']:
+            for pr, name in enumerate(p[0] for p in pairs(pn)):
+                if name in INSERTING:
+                    scs.append(dict(cell=ci, pat=pn, subpose=4, place=P(0.97, 0.03, 0.97), pair=pr, replace_all=0, atol=0.05, fraction=1.0, noise=0, frame=[9000.0, 7000.0, -8000.0]))
+    scs += [dict(scale='large', variant=v, atol=0.05, fraction=1.0, replace_all=0) for v in (0, 1)]
+    scs += [dict(scale='sheet', variant=v, height=0.5, atol=0.2, fraction=1.0, replace_all=ra) for v in (0, 1) for ra in (0, 1)]
     return dict(scenarios=scs, exhaustive=True, chunk=20,
                 menus=dict(cells=[c[0] for c in G.CELLS], patterns=PATS, pairs=INSERTING, fractions=[1.0, 0.5, 1.0 / 3], replace_all=[False, True], joint_motions=3 if q else 6, copies=[1, 2, 3]),
                 bounds=dict(draw_deviation_bound=draw_bound(tier)),
@@ -58,7 +66,7 @@ def joint_motions(seed, n):
 
 
 def check_positions(c, sc, answers, res, rec, out, case):
-    V = lambda clause, sig, msg: out['violations'].append(viol(clause, sig, '%s [pair=%s, cell=%s, draw answers %r]' % (msg, c['pair'], G.CELLS[sc['cell']][0], tuple(answers)), sc, case=case, answers=list(answers)))
+    V = lambda clause, sig, msg: out['violations'].append(viol(clause, sig, '%s [pair=%s, cell=%s, draw answers %r]' % (msg, c['pair'], c['cellname'], tuple(answers)), sc, case=case, answers=list(answers)))
     cell = c['cell']; inv = np.linalg.inv(cell)
     idxs = [tuple(int(i) for i in t) for t in rec[0]]; mpos = np.asarray(rec[1]); quats = rec[2]
     sel = selected_matches(answers, rec, sc.get('fraction', 1.0))
@@ -82,6 +90,11 @@ def check_positions(c, sc, answers, res, rec, out, case):
     for mi, m in enumerate(idxs):
         X = mpos[mi]
         eps = kabsch(pp, X)[0]
+        lb = subset_rmsd_bound(pp, X)
+        if lb > 1.8 * sc['atol'] + 1e-3:
+            # no proper rigid image of the search pattern has all atoms within sqrt(3)*atol of the atoms that were replaced
+            V('rigid-placement', 'match-outside-tolerance', 'match %r: the replaced atoms are not a proper rigid image of the search pattern within the tolerance (rms deviation of a 4-atom subset %.3g, atol %g)' % (m, lb, sc['atol']))
+            return nins
         q = quats[mi] if isinstance(quats[mi], R) else R.from_quat(quats[mi])
         pred = q.apply(rp_only - pp[0]) + X[0]
         ins = tail[mi * len(ins_idx):(mi + 1) * len(ins_idx)]
@@ -134,10 +147,10 @@ def run(sc, ctx):
             dev = np.abs((d - np.round(d)) @ c['cell']).max()
             if dev > tol:
                 out['violations'].append(viol('joint-motion', 'positions', 'jointly moved patterns (motion %d) move the result by %.3g (mod lattice), allowed %.3g [pair=%s]' % (ji, dev, tol, c['pair']), sc, case=case))
-    pl = G.PLACEMENTS[sc['place']]
+    pl = G.PLACEMENTS[sc['place']] if 'place' in sc else (0.0,)
     out['outcomes']['inserted=%d pair=%s' % (nins, c['pair'][:10])] = 1
     if nins and (min(pl) < 0.1 or max(pl) > 0.9):
         out['nontrivial'] = 1
-    if sc['cell'] == 3 and sc['pat'] == 'CNO' and sc['pair'] == 4 and sc['subpose'] == 4 and not sc['replace_all'] and sc.get('ncopies', 1) == 1:
+    if sc.get('cell') == 3 and sc.get('pat') == 'CNO' and sc['pair'] == 4 and sc['subpose'] == 4 and not sc['replace_all'] and sc.get('ncopies', 1) == 1:
         out['samples'] = [dict(case=case, inserted_fractional=np.round(np.asarray(exs[0][1].positions)[-nins:] @ np.linalg.inv(c['cell']), 4).tolist() if nins and exs[0][1] is not None else None)]
     return out
